@@ -8,16 +8,18 @@ package lsp
 import (
 	"bytes"
 	"encoding/json"
+	"errors"
 	"strconv"
 	"strings"
 
+	goerrors "github.com/ajitpratap0/GoSQLX/pkg/errors"
 	"github.com/ajitpratap0/GoSQLX/pkg/gosqlx"
 	vx "github.com/ajitpratap0/GoSQLX/zzvx"
 )
 
 const vxURI = "file:///a.sql"
 
-var vxDocTexts = []string{"SELECT a FROM t", "SELEC a", "SELECT a FROM t;\nSELECT FROM", ""}
+var vxDocTexts = []string{"SELECT a FROM t", "SELEC a", "SELECT a FROM t;\nSELECT FROM", "", "SELECT a\nFROM t\nWHERE b = 'x", "-- see [1:7], line 1\nSELECT tags[1:2]\nFROM \"t"}
 
 type vxTpl struct {
 	method string
@@ -86,7 +88,7 @@ func vxBuildMessage() vxSent {
 		return s
 	}
 	t := vxTemplates[vx.Choice(len(vxTemplates))]
-	text := vxDocTexts[vx.Choice(len(vxDocTexts))]
+	text := vxDocTexts[vx.Choice(4)] // the multi-line tokenizer-error texts are explored by the document histories
 	tj, _ := json.Marshal(text)
 	params := strings.ReplaceAll(t.params, "%T", string(tj))
 	s := vxSent{method: t.method, wellReq: true}
@@ -200,6 +202,15 @@ func vxConversation(maxN int) {
 			_, errs := gosqlx.ParseWithRecovery(content)
 			vx.Assertf("C18.diagnostics_of_text", len(d.Diagnostics) == len(errs), "%d diagnostics published for %q, whose recovery parse reports %d errors", len(d.Diagnostics), content, len(errs))
 			lines := strings.Count(content, "\n") + 1
+			// anchored on the line the library's own error location names
+			if len(d.Diagnostics) == len(errs) {
+				for k, e := range errs {
+					var se *goerrors.Error
+					if errors.As(e, &se) && se.Location.Line > 0 {
+						vx.Assertf("C18.diagnostic_line", d.Diagnostics[k].Range.Start.Line == se.Location.Line-1, "diagnostic %d is anchored on line %d, the error is located on line %d (0-based) of %q", k, d.Diagnostics[k].Range.Start.Line, se.Location.Line-1, content)
+					}
+				}
+			}
 			for _, dg := range d.Diagnostics {
 				vx.Assertf("C18.diagnostic_in_document", dg.Range.Start.Line >= 0 && dg.Range.Start.Line < lines && dg.Range.Start.Character >= 0, "diagnostic at line %d of a %d-line document", dg.Range.Start.Line, lines)
 			}
